@@ -60,7 +60,7 @@ def check_modes(ms, labels, where):
     return K
 
 
-def check_provenance(ms, labels, clusterer, pool_u, trained_labels, where):
+def check_provenance(ms, labels, clusterer, pool_u, trained_labels, where, train=None):
     """mean of mode r in the bounding box of the pool points assigned to r (if r had any training point)."""
     if clusterer is None:
         return 0
@@ -85,6 +85,30 @@ def check_provenance(ms, labels, clusterer, pool_u, trained_labels, where):
             raise Violation(f"{where}: proposal mode {r} has standard deviation {sd[j]:.4g} along coordinate {j}, more than the whole extent "
                             f"{hi[j] - lo[j]:.4g} of the particles of cluster {r}: it was not fitted from the particles of that cluster alone",
                             sig={"kind": "mode-of-other-cluster"})
+        # ... and its location is where those particles are: within 4 of their own (weighted) standard deviations of their weighted
+        # mean, in the Mahalanobis sense. Necessary for any location estimate of that weighted cloud (moment, resampled-moment or
+        # Student-t fit); judged only for clusters with enough points and enough effective points for the cloud's covariance to
+        # mean something. A mode carried over from another clustering, or from the pool of another temperature, sits elsewhere.
+        if train is not None:
+            ut, wt, lt = train
+            sel = lt == r
+            d = pool_u.shape[1]
+            if sel.sum() >= 4 * d + 8:
+                ww = wt[sel] / wt[sel].sum()
+                if 1.0 / np.sum(ww ** 2) >= 2 * d + 4:
+                    m = ww @ ut[sel]
+                    xc = ut[sel] - m
+                    S = (xc * ww[:, None]).T @ xc
+                    S = S + 1e-12 * max(1e-300, float(np.trace(S))) * np.eye(d)
+                    try:
+                        dist2 = float((mu - m) @ np.linalg.solve(S, mu - m))
+                    except np.linalg.LinAlgError:
+                        dist2 = 0.0
+                    if np.isfinite(dist2) and dist2 > 16.0:
+                        raise Violation(f"{where}: proposal mode {r} is centred at {np.round(mu, 4).tolist()}, {np.sqrt(dist2):.1f} standard deviations "
+                                        f"(of the cluster's own weighted cloud) away from the weighted mean {np.round(m, 4).tolist()} of the "
+                                        f"{int(sel.sum())} training particles of cluster {r}: it was not fitted from the particles of that cluster",
+                                        sig={"kind": "mode-of-other-cluster"})
         n_checked += 1
     return n_checked
 
@@ -125,6 +149,16 @@ def trimmed_labels(trainer, weights, pool_u):
     return set(np.asarray(trainer.clusterer.predict(pool_u[idx])).tolist())
 
 
+def trimmed_training(trainer, weights, pool_u):
+    """(points, weights, labels as the shared clusterer predicts them now) of the trimmed training set."""
+    from tempest.tools import trim_weights
+
+    if trainer.clusterer is None:
+        return None
+    idx, wt = trim_weights(np.arange(len(weights)), np.array(weights, dtype=float), ess=trainer.TRIM_ESS, bins=trainer.TRIM_BINS)
+    return pool_u[idx], np.asarray(wt, dtype=float), np.asarray(trainer.clusterer.predict(pool_u[idx]))
+
+
 # ----------------------------------------------------------------------------- component level
 
 
@@ -140,11 +174,14 @@ def pool_cases(draw):
         corners = draw(st.permutations([[0.25 + 0.5 * ((c >> j) & 1) for j in range(d)] for c in range(2**d)]))[:K]
         return {"d": d, "K": K, "centres": [[x + draw(st.floats(-0.08, 0.08)) for x in c] for c in corners],
                 "widths": [draw(st.floats(0.008, 0.03)) for _ in range(K)], "mass": [draw(st.floats(0.7, 1.0)) for _ in range(K)],
-                "N": 64, "batches": draw(st.integers(3, 5)), "wsigma": draw(st.sampled_from([0.0, 0.5, 1.0])),
+                "N": draw(st.sampled_from([64, 128])), "batches": draw(st.integers(3, 5)), "wsigma": draw(st.sampled_from([0.0, 0.5, 1.0])),
                 "cluster_every": draw(st.sampled_from([2, 3, 5])), "n_max_clusters": draw(st.sampled_from([None, None, 4])),
                 "normalize": draw(st.sampled_from([True, True, False])), "thr": draw(st.sampled_from([0.3, 1.0])), "iters": draw(st.integers(4, 6)),
                 "resample": draw(st.sampled_from(["mult", "syst"])), "seed": draw(st.integers(0, 2**31 - 2)),
-                "die_rate": draw(st.sampled_from([40.0, 100.0])), "die_mode": draw(st.integers(0, 3)), "die_from": draw(st.integers(1, 2))}
+                "die_rate": draw(st.sampled_from([40.0, 100.0])), "die_mode": draw(st.integers(0, 3)), "die_from": draw(st.integers(1, 2)),
+                # half of them: the mode does not vanish but fades to a fixed small share of the pool's weight - small enough for
+                # the trimmed training set to lose it, large enough for resampling to still put a particle there now and then
+                "die_share": draw(st.sampled_from([None, 0.002, 0.004, 0.008]))}
     K = draw(st.integers(1, 4))
     return {"d": d, "K": K, "centres": [[draw(st.floats(0.1, 0.9)) for _ in range(d)] for _ in range(K)],
             "widths": [draw(st.floats(0.005, 0.12)) for _ in range(K)], "mass": [draw(st.floats(0.02, 1.0)) for _ in range(K)],
@@ -188,7 +225,7 @@ def exec_pool(case):
                                calls=0, steps=1, acceptance=1.0, efficiency=1.0, ess=1.0))
         sm.commit_current_to_history()
     np.random.seed(case["seed"])
-    kmax, nonrefit, untrained, kfit = 0, 0, 0, 0
+    kmax, nonrefit, untrained, kfit, active_untrained, fade_comp = 0, 0, 0, 0, 0, None
     for j in range(case["iters"]):
         it = it0 + case["batches"] + j
         sm.set_current("iter", it)
@@ -200,18 +237,37 @@ def exec_pool(case):
         # the mode is alive while the clusterer is first fitted (step 0) and dies from step die_from on
         if j >= case.get("die_from", 0):
             lw = lw - case.get("die_rate", 0.0) * (j + 1) * (np.concatenate(comp) == case.get("die_mode", 0) % case["K"])
+        fade = case.get("die_share") is not None and j >= case.get("die_from", 0)
+        if fade:
+            lw = lw + case.get("die_rate", 0.0) * (j + 1) * (np.concatenate(comp) == case.get("die_mode", 0) % case["K"])
         w = np.exp(lw - lw.max())
         w /= w.sum()
+        if fade:
+            if fade_comp is None:
+                # which generating mode fades: in half of these cases the one the fitted model gave its LAST label (a count of
+                # modes taken from the labels that still occur, rather than from the model, is only wrong for the last one)
+                fade_comp = case.get("die_mode", 0) % case["K"]
+                if case["seed"] % 2 == 0 and getattr(clusterer, "n_clusters_", 0) and clusterer.n_clusters_ > 1:
+                    lab = np.asarray(clusterer.predict(pool_u))
+                    cc = np.concatenate(comp)
+                    share = [np.mean(lab[cc == c] == clusterer.n_clusters_ - 1) if np.any(cc == c) else 0.0 for c in range(case["K"])]
+                    fade_comp = int(np.argmax(share))
+            m = np.concatenate(comp) == fade_comp
+            if 0 < m.sum() < len(m):
+                w[m] *= case["die_share"] * w[~m].sum() / ((1 - case["die_share"]) * w[m].sum())
+                w /= w.sum()
         where = f"iteration {it} (cluster_every={case['cluster_every']}, step {j})"
         ms = lib_call(trainer.run, w.copy(), what=f"Trainer.run at {where}")
         lib_call(resampler.run, w.copy(), what=f"Resampler.run at {where}")
         labels = sm.get_current("assignments")
         K = check_modes(ms, labels, where)
         tl = trimmed_labels(trainer, w, pool_u)
-        check_provenance(ms, labels, clusterer, pool_u, tl, where)
+        check_provenance(ms, labels, clusterer, pool_u, tl, where, train=trimmed_training(trainer, w, pool_u))
         check_membership(labels, sm.get_current("u"), clusterer, pool_u, where)
         if clusterer.n_clusters_ > len(tl or ()):
             untrained += 1
+            if set(np.asarray(labels).tolist()) - set(tl or ()):
+                active_untrained += 1
         if not (it % case["cluster_every"] == 0):
             nonrefit += 1
         kmax = max(kmax, len(set(np.asarray(labels).tolist())))
@@ -227,6 +283,8 @@ def exec_pool(case):
         classes.append("has-non-refit-iteration")
     if untrained:
         classes.append("label-without-training-point")
+    if active_untrained:
+        classes.append("active-particle-in-cluster-without-training-point")
     classes.append("fitted-clusters=%d" % min(kfit, 5))
     return {"nontrivial": kmax >= 2, "classes": classes,
             "sample": {"d": d, "K_true": case["K"], "N": N, "cluster_every": case["cluster_every"], "cap": nmc, "K_referenced_max": kmax}}
@@ -279,7 +337,8 @@ def exec_run(case):
             K = check_modes(ms, labels, where)
             pool_u = core.state.get_history("u", flat=True)
             tl = trimmed_labels(core.trainer, ctx["w"], pool_u) if "w" in ctx and len(ctx["w"]) == len(pool_u) else None
-            stats["prov"] += check_provenance(ms, labels, core.trainer.clusterer, pool_u, tl, where)
+            tr = trimmed_training(core.trainer, ctx["w"], pool_u) if tl is not None else None
+            stats["prov"] += check_provenance(ms, labels, core.trainer.clusterer, pool_u, tl, where, train=tr)
             check_membership(labels, kw["u"], core.trainer.clusterer, pool_u, where)
             stats["calls"] += 1
             if len(set(labels.tolist())) >= 2:
